@@ -113,12 +113,12 @@ struct Engine {
     how = "superset"; D d(base); d.upper_bound_assign(DOM::rand_elem(n)); return d;
   }
   static PS* random_ps(int n, std::string& desc) {
-    int how = rnd(0, 9); PS* p;
+    int how = rnd(0, 19); PS* p;
     if (how == 0) { p = new PS(n, UNIVERSE); desc = "universe"; }
     else if (how == 1) { D d = DOM::rand_elem(n); p = new PS(d); desc = "from element"; }
     else {
       p = new PS(n, EMPTY); desc = "";
-      int k = rnd(0, 4);
+      int kk = rnd(0, 99); int k = kk < 6 ? 0 : kk < 16 ? 1 : kk < 50 ? 2 : kk < 80 ? 3 : 4;
       for (int j = 0; j < k; ++j) {
         std::string h; D d = family_elem(*p, n, h);
         if (h == "adjacent" && (int) p->size() < 4) { std::vector<D> ev = elems(*p); D d1(n), d2(n); split_elem<DOM>(ev[rnd(0, (int) ev.size() - 1)], d1, d2, n); p->add_disjunct(d1); p->add_disjunct(d2); ++j; }
